@@ -1,12 +1,12 @@
-\* thorough: 3 names, every trigger set, limits 0..2  (8.0 M distinct states, ~9 min on 16 cores)
+\* thorough: limits 1..3, 4 stores (4.4 M distinct states, ~6 min)
 SPECIFICATION Spec
 CONSTANTS
   Names = {1,2,3}
   Limits = {1,2,3}
   Deadlines = {0,1,2}
-  TrigSets = {{},{3},{2,3},{1,2,3}}
-  MaxNow = 3
-  MaxStores = 3
+  TrigSets = {{},{3},{2,3}}
+  MaxNow = 2
+  MaxStores = 4
 CONSTRAINT Bounded
 INVARIANTS Bound OrderInv HeldNotDead
 PROPERTIES EvictRule OnlyStoreEvicts
